@@ -50,6 +50,7 @@ func main() {
 	if *replay != "" {
 		os.Exit(rs.replayFile(*replay))
 	}
+	rs.reproduceKnown()
 	check.run(rs)
 	code := rs.finish()
 	os.Exit(code)
